@@ -130,12 +130,15 @@ func Generate(profile string, seed uint64, tier string) (*Scenario, error) {
 		c.PRestart, c.PNested = 0, 0
 		c.NOps = g.Range(3, 12)
 		sc.Datasets = c.Datasets
+		extra := map[string]bool{} // datasets created and dropped between backup runs
+		backedUp, reset := false, false
 		for _, op := range g.GenStoreHistory(c) {
 			sc.Ops = append(sc.Ops, op)
 			x := g.r.Float64()
 			switch {
 			case x < 0.30:
 				sc.Ops = append(sc.Ops, Op{K: "backup"})
+				backedUp = true
 				if g.P(0.5) {
 					sc.Ops = append(sc.Ops, Op{K: "restoreCheck"})
 				}
@@ -143,6 +146,41 @@ func Generate(profile string, seed uint64, tier string) (*Scenario, error) {
 				sc.Ops = append(sc.Ops, Op{K: "restart"})
 			case x < 0.47:
 				sc.Ops = append(sc.Ops, Op{K: "foreignBackup"})
+			case x < 0.62:
+				// dataset management between backup runs: what a backup run sees first may be a dataset
+				// record, a deleted-datasets set or a namespace mapping, not an entity
+				if g.P(0.5) {
+					// the management operation is the very first commit after a backup run
+					sc.Ops = append(sc.Ops, Op{K: "backup"})
+					backedUp = true
+				}
+				switch {
+				case !extra["dsX"] && !extra["dsY"]:
+					extra["dsX"] = true
+					sc.Ops = append(sc.Ops, Op{K: "createDataset", DS: "dsX"})
+					if g.P(0.6) {
+						sc.Ops = append(sc.Ops, Op{K: "batch", DS: "dsX", Ents: []Ent{g.freshEnt(c, g.Pick(c.Pool))}})
+					}
+				case extra["dsX"] && g.P(0.4):
+					delete(extra, "dsX")
+					extra["dsY"] = true
+					sc.Ops = append(sc.Ops, Op{K: "renameDataset", DS: "dsX", DS2: "dsY"})
+				default:
+					d := "dsX"
+					if extra["dsY"] {
+						d = "dsY"
+					}
+					delete(extra, d)
+					sc.Ops = append(sc.Ops, Op{K: "deleteDataset", DS: d})
+				}
+				if g.P(0.5) {
+					sc.Ops = append(sc.Ops, Op{K: "backup"}, Op{K: "restoreCheck"})
+					backedUp = true
+				}
+			case x < 0.66 && backedUp && !reset && len(extra) == 0:
+				// the store is wiped (DELETE /datasets) and the hub restarted: a new store, the old backup is not its
+				reset = true
+				sc.Ops = append(sc.Ops, Op{K: "resetStore"}, Op{K: "backup"})
 			}
 		}
 		sc.Ops = append(sc.Ops, Op{K: "backup"}, Op{K: "restoreCheck"})
@@ -215,7 +253,13 @@ func Generate(profile string, seed uint64, tier string) (*Scenario, error) {
 					ops = append(ops, Op{K: "nsid", S: g.c13URI()})
 				} else {
 					e := Ent{"id": g.c13URI(), "props": map[string]any{MkS + "a0": g.scalar()}, "refs": map[string]any{"http://h.example.com/pred#rel": g.c13URI()}}
-					ops = append(ops, Op{K: "batch", DS: g.Pick(sc.Datasets), Ents: []Ent{e}})
+					op := Op{K: "batch", DS: g.Pick(sc.Datasets), Ents: []Ent{e}}
+					if g.P(0.2) {
+						// a batch the store rejects as a whole (nil reference), while other writers have identifiers in flight
+						op.Ents = append(op.Ents, Ent{"id": g.c13URI(), "props": map[string]any{}, "refs": map[string]any{"http://h.example.com/pred#rel": nil}})
+						op.M = map[string]any{"invalid": true}
+					}
+					ops = append(ops, op)
 				}
 			}
 			sc.Tasks = append(sc.Tasks, ops)
@@ -1445,8 +1489,11 @@ func genC14(g *G, sc *Scenario, tier string, seed uint64) {
 				}
 			}
 			ops = append(ops, op)
-		case x < 0.40:
+		case x < 0.38:
 			ops = append(ops, Op{K: "renameDataset", DS: "dsX", DS2: "dsY"})
+		case x < 0.42:
+			// public namespaces grown, replaced, shrunk or emptied
+			ops = append(ops, Op{K: "setPublicNamespaces", DS: hg.Pick([]string{"dsX", "dsY", "dsA"}), A: [][]any{{ExE, ExS}, {ExE}, {ExS}, {}}[hg.Intn(4)]})
 		case x < 0.52:
 			jobN++
 			id := fmt.Sprintf("job%d", jobN%3)
